@@ -9,7 +9,7 @@ CONSTANTS
   FullOrder = FALSE
   Points <- Pts1
   Feeds <- Fd1
-  Configs <- CfgConst
+  Configs <- CfgConstQ
   Comp <- CompDef
 INVARIANT FreeVsInlinedAgree
 INVARIANT ConfigOnlyChangesFreeSymbols
